@@ -46,7 +46,9 @@ static void junk_fill(void* p, size_t n) {
       for (size_t i = 0; i < n; i++) { if ((i & 7) == 0) v = v * 6364136223846793005ull + 1442695040888963407ull; b[i] = uint8_t(v >> ((i & 7) * 8)); }
       break;
     }
-    default: break;
+    // Never leave what the process' allocator happens to hand back: a defect that reads uninitialised memory must behave
+    // the same in the worker that found it and in the fresh process that replays it.
+    default: memset(p, 0xBE, n); break;
   }
 }
 
